@@ -8,6 +8,7 @@
 import GIV.Lemmas.ImportsReadMain
 import GIV.Lemmas.ImportsReadTotal
 import GIV.Lemmas.ImportsReadFuel
+import GIV.Lemmas.ImportsReadGoMain
 
 namespace GIV.C18
 open GIV GIV.ReadImports
@@ -135,5 +136,121 @@ example : readImports [112, 97, 99, 107, 97, 103, 101, 32, 112, 10, 105, 109, 11
     .ok [] [112, 97, 99, 107, 97, 103, 101, 32, 112, 10, 105, 109, 112, 111, 114, 116, 32, 120] none :=
   readImports_syntax_whole _ [] [112, 97, 99, 107, 97, 103, 101, 32, 112, 10, 105, 109, 112, 111, 114, 116, 32, 120]
     (by decide) (by decide)
+
+/-! ### the regenerated model: imports/read.go itself, translated on every run
+
+`GIV.Go.Read.*` (GIV/Gen/ImportsReadGo.lean) is the Lean translation of read.go that
+`imports factgen` regenerates from /repo's working tree on every check run: `importReader` is a
+structure threaded through its pointer-receiver methods, the `*bufio.Reader` is the input that
+remains, `imports *[]string` is an in-out parameter (`some l` = a pointer to `l`), `none` is a Go
+panic or an exhausted loop budget.  `GIV/Lemmas/ImportsReadGo*.lean` prove every translated function
+equal to the model's counterpart under the state correspondence `ReadGo.ofSt`; the theorems below
+restate the property over the translated source. -/
+
+/-- the translated ReadImports — returned bytes, error, the list written through `imports` — is
+the model's `readImports`, for every input and both values of `reportSyntaxError`. -/
+theorem go_ReadImports_agrees (input : Bytes) (report : Bool) :
+    Go.Read.ReadImports input report (some []) = ReadGo.toGo (readImports input report) :=
+  ReadGo.go_ReadImports_eq input report
+
+-- a file with a byte-order mark, a single and a grouped import; evaluated by the kernel on the generated definitions
+example : Go.Read.ReadImports [239, 187, 191, 112, 97, 99, 107, 97, 103, 101, 32, 112, 10, 105, 109, 112, 111, 114, 116, 32, 34, 97, 34, 10, 105, 109, 112, 111, 114, 116, 32, 40, 10, 9, 120, 32, 96, 98, 96, 32, 47, 47, 32, 99, 10, 41, 10, 118, 97, 114, 32, 118] true (some []) =
+    some ([112, 97, 99, 107, 97, 103, 101, 32, 112, 10, 105, 109, 112, 111, 114, 116, 32, 34, 97, 34, 10, 105, 109, 112, 111, 114, 116, 32, 40, 10, 9, 120, 32, 96, 98, 96, 32, 47, 47, 32, 99, 10, 41, 10], none, some [[34, 97, 34], [96, 98, 96]]) := by decide +kernel
+example : ReadGo.toGo (readImports [239, 187, 191, 112, 97, 99, 107, 97, 103, 101, 32, 112, 10, 105, 109, 112, 111, 114, 116, 32, 34, 97, 34, 10, 105, 109, 112, 111, 114, 116, 32, 40, 10, 9, 120, 32, 96, 98, 96, 32, 47, 47, 32, 99, 10, 41, 10, 118, 97, 114, 32, 118] true) =
+    some ([112, 97, 99, 107, 97, 103, 101, 32, 112, 10, 105, 109, 112, 111, 114, 116, 32, 34, 97, 34, 10, 105, 109, 112, 111, 114, 116, 32, 40, 10, 9, 120, 32, 96, 98, 96, 32, 47, 47, 32, 99, 10, 41, 10], none, some [[34, 97, 34], [96, 98, 96]]) := by decide +kernel
+
+/-- the helper functions of the reader, translated, are the model's: the state correspondence is
+`ReadGo.ofSt` (Go struct = remaining input, `buf`, `peek`, `err`, `eof`, `nerr` of the model state),
+and `ReadGo.OK` says that neither model-only flag (`stuck`, `panicked`) is raised. -/
+theorem go_read_parts_agree :
+    (∀ c, Go.Read.isIdent c = some (isIdent c)) ∧
+    (∀ st, Go.Read.syntaxError (ReadGo.ofSt st) = some (ReadGo.ofSt (syntaxError st))) ∧
+    (∀ st, Go.Read.readByte (ReadGo.ofSt st) = some ((readByte st).1, ReadGo.ofSt (readByte st).2)) ∧
+    (∀ sk st, ReadGo.OK (peekByte sk st).2 →
+      Go.Read.peekByte (ReadGo.ofSt st) sk = some ((peekByte sk st).1, ReadGo.ofSt (peekByte sk st).2)) ∧
+    (∀ sk st, ReadGo.OK (nextByte sk st).2 →
+      Go.Read.nextByte (ReadGo.ofSt st) sk = some ((nextByte sk st).1, ReadGo.ofSt (nextByte sk st).2)) ∧
+    (∀ kw st, ReadGo.OK (readKeyword kw st) →
+      Go.Read.readKeyword (ReadGo.ofSt st) kw = some (ReadGo.ofSt (readKeyword kw st))) ∧
+    (∀ st, ReadGo.OK (readIdent st) → Go.Read.readIdent (ReadGo.ofSt st) = some (ReadGo.ofSt (readIdent st))) ∧
+    (∀ st, ReadGo.PeekBuf st → ReadGo.OK (readString st) →
+      Go.Read.readString (ReadGo.ofSt st) (some st.imports) =
+        some (ReadGo.ofSt (readString st), some (readString st).imports)) ∧
+    (∀ st, ReadGo.PeekBuf st → ReadGo.OK (readImport st) →
+      Go.Read.readImport (ReadGo.ofSt st) (some st.imports) =
+        some (ReadGo.ofSt (readImport st), some (readImport st).imports)) :=
+  ⟨ReadGo.isIdent_eq, ReadGo.syntaxError_eq, ReadGo.readByte_eq,
+   fun sk st h => (ReadGo.peekByte_go sk st h).2, fun sk st h => (ReadGo.nextByte_go sk st h).2,
+   fun kw st h => (ReadGo.readKeyword_go kw st h).2, fun st h => (ReadGo.readIdent_go st h).2,
+   fun st hp h => (ReadGo.readString_go st hp h).2, fun st hp h => (ReadGo.readImport_go st hp h).2⟩
+
+-- `peekByte(true)` on `/* c */ x`: skips the comment and peeks `x`, on the generated definition
+example : (Go.Read.peekByte (ReadGo.ofSt (St.init [47, 42, 32, 99, 32, 42, 47, 32, 120])) true).map (·.1) = some 120 := by
+  decide +kernel
+
+/-- `readImports_total` over the translated source: for arbitrary input bytes the translated
+ReadImports returns (`some …`) — no Go panic is reachable (in particular not the `nerr > 10000`
+"import reader looping" panic of peekByte, which the translation keeps, nor the slice
+`r.buf[:len(r.buf)-1]`) and every loop ends within the budget the translation gives it. -/
+theorem go_ReadImports_total (input : Bytes) (report : Bool) :
+    ∃ buf err imps, Go.Read.ReadImports input report (some []) = some (buf, err, some imps) := by
+  obtain ⟨imps, buf, err, _, h⟩ := ReadGo.go_ReadImports_some input report
+  exact ⟨buf, _, imps, h⟩
+
+-- arbitrary bytes: `pack\x00` and an unterminated comment
+example : Go.Read.ReadImports [112, 97, 99, 107, 0] true (some []) = some ([112, 97, 99, 107, 0], ReadGo.errNULGo, some []) := by
+  decide +kernel
+example : (Go.Read.ReadImports [47, 42, 32, 120] true (some [])).isSome = true := by decide +kernel
+
+/-- `readImports_buf_prefix` over the translated source: the bytes the translated ReadImports
+returns are a prefix of its input, the byte-order mark aside. -/
+theorem go_ReadImports_buf_prefix (input : Bytes) (report : Bool) (buf : Bytes) (err : GoLib.GoError)
+    (imps : Option (List Bytes)) (h : Go.Read.ReadImports input report (some []) = some (buf, err, imps)) :
+    buf <+: stripBOM input := by
+  obtain ⟨imps', buf', err', hm, hg⟩ := ReadGo.go_ReadImports_some input report
+  rw [hg] at h
+  simp only [Option.some.injEq, Prod.mk.injEq] at h
+  rw [← h.1]
+  exact readImports_buf_prefix input report imps' buf' err' hm
+
+example : [112, 97, 99, 107, 97, 103, 101, 32, 112, 10, 105, 109, 112, 111, 114, 116, 32, 34, 97, 34, 10, 105, 109, 112, 111, 114, 116, 32, 40, 10, 9, 120, 32, 96, 98, 96, 32, 47, 47, 32, 99, 10, 41, 10] <+: stripBOM [239, 187, 191, 112, 97, 99, 107, 97, 103, 101, 32, 112, 10, 105, 109, 112, 111, 114, 116, 32, 34, 97, 34, 10, 105, 109, 112, 111, 114, 116, 32, 40, 10, 9, 120, 32, 96, 98, 96, 32, 47, 47, 32, 99, 10, 41, 10, 118, 97, 114, 32, 118] :=
+  go_ReadImports_buf_prefix [239, 187, 191, 112, 97, 99, 107, 97, 103, 101, 32, 112, 10, 105, 109, 112, 111, 114, 116, 32, 34, 97, 34, 10, 105, 109, 112, 111, 114, 116, 32, 40, 10, 9, 120, 32, 96, 98, 96, 32, 47, 47, 32, 99, 10, 41, 10, 118, 97, 114, 32, 118] true _ none (some [[34, 97, 34], [96, 98, 96]]) (by decide +kernel)
+
+/-- `readImports_syntax_whole` over the translated source: when the reporting run of the translated
+ReadImports ends in `errSyntax`, the non-reporting run returns the whole input (byte-order mark
+aside), no error and the same imports — for NUL-free input (a NUL is a hard error of its own). -/
+theorem go_ReadImports_syntax_whole (input : Bytes) (buf : Bytes) (imps : Option (List Bytes))
+    (h : Go.Read.ReadImports input true (some []) = some (buf, ReadGo.errSyntaxGo, imps))
+    (hnul : (stripBOM input).all (· ≠ 0) = true) :
+    Go.Read.ReadImports input false (some []) = some (stripBOM input, none, imps) := by
+  obtain ⟨imps', buf', err', hm, hg⟩ := ReadGo.go_ReadImports_some input true
+  rw [hg] at h
+  simp only [Option.some.injEq, Prod.mk.injEq] at h
+  obtain ⟨_, he, hi⟩ := h
+  have herr : err' = some .syntax := by
+    rcases err' with _ | (_ | _)
+    · exact absurd he (by decide)
+    · rfl
+    · exact absurd he (by decide)
+  rw [herr] at hm
+  have hw := readImports_syntax_whole input imps' buf' hm hnul
+  rw [go_ReadImports_agrees, hw, ← hi]
+  rfl
+
+-- a broken header (`package p\nimport x`): a syntax error when reported, the whole input when not
+example : Go.Read.ReadImports [112, 97, 99, 107, 97, 103, 101, 32, 112, 10, 105, 109, 112, 111, 114, 116, 32, 120] true (some []) = some ([112, 97, 99, 107, 97, 103, 101, 32, 112, 10, 105, 109, 112, 111, 114, 116, 32, 120], ReadGo.errSyntaxGo, some []) := by decide +kernel
+example : Go.Read.ReadImports [112, 97, 99, 107, 97, 103, 101, 32, 112, 10, 105, 109, 112, 111, 114, 116, 32, 120] false (some []) = some ([112, 97, 99, 107, 97, 103, 101, 32, 112, 10, 105, 109, 112, 111, 114, 116, 32, 120], none, some []) :=
+  go_ReadImports_syntax_whole [112, 97, 99, 107, 97, 103, 101, 32, 112, 10, 105, 109, 112, 111, 114, 116, 32, 120] [112, 97, 99, 107, 97, 103, 101, 32, 112, 10, 105, 109, 112, 111, 114, 116, 32, 120] (some []) (by decide +kernel) (by decide +kernel)
+example : Go.Read.ReadImports [112, 97, 99, 107, 97, 103, 101, 32, 112, 10, 105, 109, 112, 111, 114, 116, 32, 120] false (some []) = some ([112, 97, 99, 107, 97, 103, 101, 32, 112, 10, 105, 109, 112, 111, 114, 116, 32, 120], none, some []) := by decide +kernel
+
+/-- the translated ReadComments, for every input: it returns (no panic) the leading white space
+and comments — what the model's reader has consumed when its first `peekByte(true)` stops, minus
+the byte that stopped it. -/
+theorem go_ReadComments_agrees (input : Bytes) :
+    Go.Read.ReadComments input =
+      some ((ReadGo.readComments input).1, ReadGo.errGo (ReadGo.readComments input).2) :=
+  ReadGo.go_ReadComments_eq input
+
+example : Go.Read.ReadComments [47, 47, 32, 104, 105, 10, 47, 42, 32, 99, 32, 42, 47, 32, 112, 97, 99, 107, 97, 103, 101, 32, 112] = some ([47, 47, 32, 104, 105, 10, 47, 42, 32, 99, 32, 42, 47, 32], none) := by decide +kernel
 
 end GIV.C18
